@@ -850,7 +850,8 @@ class Unit:
         if self.cfg.get('auto_algebra', True) and not (c and c.nohints):
             hints = getattr(self, 'entry_hints', DEFAULT_ENTRY_HINTS)
             if self.cfg.get('second_opinion'):
-                hints = hints.replace('crate::vspec::use_id_order::<C>(); }', 'crate::vspec::use_id_order::<C>(); crate::vspec::use_ac%s::<C>(); }' % int(self.cfg.get('second_opinion')))
+                hints = re.sub(r'crate::vspec::use_id_order::<([^;]*?)>\(\); \}',
+                               lambda m: 'crate::vspec::use_id_order::<%s>(); crate::vspec::use_ac%d::<%s>(); }' % (m.group(1), int(self.cfg.get('second_opinion')), m.group(1)), hints)
             entry = hints + entry
         if self.cfg.get('canary'):
             # vacuity guard (DESIGN 2.7): with this flag every verified function must FAIL
